@@ -7,8 +7,8 @@ import (
 
 	"github.com/cockroachdb/pebble/batchrepr"
 	"github.com/cockroachdb/pebble/internal/base"
-	"github.com/cockroachdb/pebble/record"
 	sym "github.com/cockroachdb/pebble/internal/verifsym"
+	"github.com/cockroachdb/pebble/record"
 	"github.com/cockroachdb/pebble/vfs"
 )
 
